@@ -8,12 +8,16 @@ cache model + access counts.  Part 2: two threads under the deterministic schedu
 import itertools
 import re
 
+import sys
+import threading
+import time
+
 from vlib import harness
 
 ID = "C16"
 LEVEL = "exploration"
 ENGINE = "vkernel+sched"
-TECHNIQUE = "runtime monitor: version-stamped reads + cache reference model; deterministic bounded-preemption schedule enumeration (sys.settrace) for the thread-safety clause"
+TECHNIQUE = "runtime monitor: version-stamped reads + cache reference model; deterministic bounded-preemption schedule enumeration (sys.settrace) for the thread-safety clause + free-running threads (1 us switch interval) under the same oracle"
 RULE = ("part 1: random event sequences (enter, nested enter, exit, exit-by-exception, method call, vanish, deny, as_dict with "
         "valid/invalid attrs) on one object checked against a cache model (version of every returned value, opens of "
         "stat/status/smaps per block, as_dict key/ad_value/validation policy). part 2: thread A runs 1-2 oneshot blocks (or "
@@ -21,7 +25,10 @@ RULE = ("part 1: random event sequences (enter, nested enter, exit, exit-by-exce
         "memoize_when_activated's wrapper, cache_activate/deactivate, oneshot(), as_dict(), oneshot_enter/exit; all schedules "
         "with <=2 pre-emptions enumerated, 3-4 pre-emption schedules sampled. non-trivial = sequence containing a block with "
         ">=2 calls on one source, or a schedule whose threads interleave inside the wrapper / across a block boundary "
-        "(>=2 context switches); distinct by event-sequence hash resp. (scenario, interleaving hash)")
+        "(>=2 context switches); distinct by event-sequence hash resp. (scenario, interleaving hash). part 3: 2-3 free-running "
+        "threads (switch interval 1 us, 300 operations each) - one using blocks, the others plain calls / as_dict / blocks - "
+        "pre-empted anywhere, not only at the yield points of part 2; block-entry windows and call intervals are taken from a "
+        "monotonic clock outside the calls; non-trivial = a run in which blocks overlapped calls of another thread")
 ASSUMPTIONS = [
     "a value returned inside a block may be as old as the block's entry; a plain call from another thread that overlaps a block of the same object may legitimately see that block's cache (the cache is per object by design)",
     "Process._lock and nothing else is replaced by a cooperative wrapper so that a blocked thread hands control back to the scheduler",
@@ -73,6 +80,7 @@ class Stamped:
         env = setup()
         self.ps = env["ps"]
         self.counter = 0
+        self._tick_lock = threading.Lock()
         t = env["ProcTable"]()
         t.spawn(1, 1, ppid=0, comm=b"init")
         p = t.spawn(50, 500, ppid=1, comm=b"stamped")
@@ -89,8 +97,10 @@ class Stamped:
         self.vk = vk
 
     def tickv(self):
-        self.counter += 1
-        return self.counter
+        # the monitor's own state: atomic with respect to free-running threads (no yield point of the scheduler lies inside)
+        with self._tick_lock:
+            self.counter += 1
+            return self.counter
 
     def _stat(self, p):
         v = self.tickv()
@@ -570,6 +580,121 @@ def run_sched_case(case, acc, seen):
              sample=dict(case, trace="".join(map(str, sch.trace)), fired=sch.fired))
 
 
+# --------------------------------------------------------------------------------------------------
+# part 3: free-running threads (no scheduler): pre-emption anywhere, not only at the chosen yield points
+# --------------------------------------------------------------------------------------------------
+
+def run_threads_case(case, acc):
+    """Two or three real threads on one Process object with a 1 us switch interval. Same oracle as part 2; the
+    block-entry window is measured with a monotonic clock around __enter__ (taken outside the calls, so an overlap is
+    necessary for the known block-entry mechanism)."""
+    env = setup()
+    ps = env["ps"]
+    w = Stamped()
+    rng = harness.rng_for(case["seed"], "c16t", case["i"])
+    nthreads = case["threads"]
+    progs = [rng.choice(["blocks", "blocks", "plain", "asdict", "mixed"]) for _ in range(nthreads)]
+    progs[0] = "blocks"
+    if "plain" not in progs and "mixed" not in progs:
+        progs[-1] = "plain"
+    logs = [[] for _ in range(nthreads)]
+    errors = []
+    now = time.perf_counter_ns
+    start = threading.Barrier(nthreads)
+    old = sys.getswitchinterval()
+
+    def worker(idx):
+        r = harness.rng_for(case["seed"], "c16tw", case["i"], idx)
+        log = logs[idx]
+        try:
+            start.wait()
+            for _ in range(case["iters"]):
+                kind = progs[idx] if progs[idx] != "mixed" else r.choice(["blocks", "plain", "asdict"])
+                if kind == "blocks":
+                    methods = [r.choice(["cpu_times", "uids", "num_threads", "cpu_times", "num_ctx_switches", "gids"])
+                               for _ in range(r.randrange(2, 6))]
+                    cm = pr.oneshot()
+                    e = w.counter
+                    t0 = now()
+                    cm.__enter__()
+                    t1 = now()
+                    vals = []
+                    try:
+                        for m in methods:
+                            vals.append((m, version_of(m, getattr(pr, m)())))
+                    finally:
+                        cm.__exit__(None, None, None)
+                    log.append(dict(kind="block", entry_counter=e, t0=t0, t1=t1, t2=now(), vals=vals))
+                elif kind == "plain":
+                    m = r.choice(["cpu_times", "uids", "num_threads", "gids"])
+                    c0 = w.counter
+                    t0 = now()
+                    v = version_of(m, getattr(pr, m)())
+                    log.append(dict(kind="plain", m=m, c0=c0, c1=w.counter, t0=t0, t2=now(), v=v))
+                else:
+                    e = w.counter
+                    t0 = now()
+                    d = pr.as_dict(attrs=["cpu_times", "uids", "num_threads"])
+                    log.append(dict(kind="asdict", entry_counter=e, t0=t0, t1=t0, t2=now(),
+                                    vals=[(m, version_of(m, d[m])) for m in ("cpu_times", "uids", "num_threads")]))
+        except BaseException as ex:  # noqa: BLE001
+            errors.append((idx, ex))
+
+    with w.vk:
+        pr = ps.Process(50)
+        sys.setswitchinterval(1e-6)
+        try:
+            ths = [threading.Thread(target=worker, args=(i,), daemon=True) for i in range(nthreads)]
+            for t in ths:
+                t.start()
+            for t in ths:
+                t.join(120)
+            hung = [i for i, t in enumerate(ths) if t.is_alive()]
+        finally:
+            sys.setswitchinterval(old)
+    viols = []
+    ctx = f"free-running threads progs={progs} seed={case['seed']} i={case['i']}"
+    if hung:
+        acc.inconclusive = f"{ctx}: threads {hung} did not finish within 120 s"
+    for idx, ex in errors:
+        viols.append((f"thread_exception:{type(ex).__name__}", f"{ctx} thread {idx} raised {ex!r}"))
+    interleaved = 0
+    for idx, log in enumerate(logs):
+        others = [o for j, lg in enumerate(logs) if j != idx for o in lg]
+        for rec in log:
+            if rec["kind"] == "plain":
+                acc.count("free_running_plain_calls")
+                v = rec["v"]
+                if v is None:
+                    continue
+                ok = v > rec["c0"]
+                if not ok:
+                    ok = any(b["kind"] != "plain" and b["t0"] <= rec["t2"] and rec["t0"] <= b["t2"] and v > b["entry_counter"]
+                             for lg in logs for b in lg)
+                if not ok:
+                    viols.append(("plain_call_value_older_than_call", f"{ctx} thread {idx} {rec}"))
+                continue
+            acc.count("free_running_blocks_checked")
+            if any(o["t0"] <= rec["t2"] and rec["t0"] <= o["t2"] for o in others):
+                interleaved += 1
+            firsts = {}
+            for m, v in rec["vals"]:
+                if v is None:
+                    continue
+                acc.count("inblock_values_checked")
+                src = SOURCE[m]
+                if not v > rec["entry_counter"]:
+                    viols.append(("inblock_value_older_than_block_entry", f"{ctx} thread {idx} {rec}"))
+                if src in firsts and firsts[src] != v:
+                    mech = "inblock_values_differ_for_one_source"
+                    if any(o["t0"] <= rec["t1"] and o["t2"] >= rec["t0"] for o in others):
+                        mech += ":other_thread_call_in_flight_during_block_entry"
+                    viols.append((mech, f"{ctx} thread {idx} {rec}"))
+                firsts.setdefault(src, v)
+    acc.count("free_running_blocks_overlapping_other_calls", interleaved)
+    acc.case(dict(kind="threads", **case), interleaved > 0, viols)
+
+
 def plan(tier, seed):
     shards = []
     nev = 6000 if tier == "quick" else 300000
@@ -587,6 +712,8 @@ def plan(tier, seed):
         nrand = 2400 if tier == "quick" else 100000
         for s, c in harness.split_range(nrand, 2 if tier == "quick" else 8):
             shards.append(dict(kind="sched_rand", scn=scn, seed=seed, start=s, count=c))
+    for part in range(4 if tier == "quick" else 16):
+        shards.append(dict(kind="threads", seed=seed, part=part, count=6 if tier == "quick" else 60, iters=300))
     return shards
 
 
@@ -612,9 +739,14 @@ def run_shard(shard):
             d = rng.choice([3, 3, 4])
             pre = sorted(rng.sample(range(total), d))
             run_sched_case(dict(scn=shard["scn"], preempt=pre, first=rng.randrange(2)), acc, seen)
+    elif k == "threads":
+        for i in range(shard["count"]):
+            run_threads_case(dict(seed=shard["seed"], i=shard["part"] * 1000 + i, threads=2 + (i % 2), iters=shard["iters"]), acc)
     elif k == "cases":
         for case in shard["cases"]:
-            if "events" in case:
+            if case.get("kind") == "threads":
+                run_threads_case({k_: v for k_, v in case.items() if k_ != "kind"}, acc)
+            elif "events" in case:
                 run_events(case["events"], acc)
             else:
                 run_sched_case(case, acc, seen)
